@@ -117,8 +117,8 @@ PROPS = {
     ),
     'C19': dict(
         title='functools.partial', proj='proj_full', oracle='c19',
-        quick=[S_('bind'), S_('partial'), S_('maskp')],
-        thorough=[S_('bind'), S_('partial'), S_('maskp')],
+        quick=[S_('bind'), S_('partial'), S_('maskp'), S_('partialfwd', count=480)],
+        thorough=[S_('bind'), S_('partial'), S_('maskp'), S_('partialfwd', count=8000)],
         runtime_part='functools.partial.__call__ (the oracle really calls the partial objects)',
         level_text='signature(partial) is _mask in partial mode: exactness w.r.t. "f accepts the bound plus the call arguments" is a theorem about the Lean '
                    'model; correspondence on real functools.partial objects of real functions (parameters, provenance, depths), plain and automatic retrieval.',
